@@ -115,7 +115,7 @@ fn strategy() -> impl Strategy<Value = LOp> {
 
 pub fn parts(ctx: &mut Ctx) {
     let len = ctx.scale(5, 6);
-    let n = ctx.scale(12_000, 200_000);
+    let n = ctx.scale(12_000, 400_000);
     let alpha = vec![LOp::Insert(0), LOp::Insert(65535), LOp::Remove(0), LOp::Remove(65535), LOp::RemoveAll];
     driver::parts::<UsedChunkListSut>(ctx, alpha, len + 1, 1, &[0, 1, 2, 3], &[0, 1, 2, 3, 4, 17], strategy(), n);
 }
